@@ -11,6 +11,18 @@ CHECKS = {
  "C02": ("exploration", "property-based testing: generated histories, strict recursive box-grammar validity predicate",
          "Every emitted stream is parsed by a strict walker that fails on one byte of slack/overrun, then mandatory boxes and table counts are checked.",
          "Trusted: box grammar encoded in harness/src/reader.rs.", "3/C02"),
+ "C03": ("exploration", "property-based testing: generated timelines, reference exact-integer tick arithmetic vs stts/ctts/mdhd read back",
+         "Timing tables of every generated file are expanded and compared with exactly rounded submitted timestamps (deltas, drift, last duration, signed composition offsets, ctts iff non-zero, mdhd = sum).",
+         "Trusted: ticks_exact (integer arithmetic on the f64 mantissa), harness reader. Half-tick ties are unconstrained and counted.", "3/C03"),
+ "C08": ("exploration", "property-based testing: differential/metamorphic relation between the fast-start and standard layouts of the same history",
+         "Each history is muxed twice; top-level order, per-layout sample resolution and equality of the layout-free description are checked.",
+         "Trusted: harness reader; description covers headers, config, timing, samples (bytes), udta.", "3/C08"),
+ "C09": ("exploration", "property-based testing: cross-track presentation timeline (stts+ctts+elst) vs submitted timestamps",
+         "Audio presentation times relative to the first video sample are compared with the submitted differences to one tick. The known root cause (tracks start at 0, no offset written) is excluded by exact signature; any other deviation is reported.",
+         "Trusted: presentation-time model in props/c09.rs (edit lists honoured when present).", "3/C09"),
+ "C15": ("exploration", "property-based testing: merge-order model on true payload locations found by byte search",
+         "The true storage location of each uniquely tagged sample is found by searching the mdat, independent of the tables; per-track order and the cross-track timestamp merge (video first on ties) are checked under four submission orders.",
+         "Trusted: unique payload tags; ambiguous searches are skipped and counted.", "3/C15"),
 }
 NOT_YET = {
 }
